@@ -60,6 +60,11 @@ CHECKS = {
    text="193 inline operations are translated; Properties_C15.v proves, for ANY interpretation of the pure-virtual accessors (hence any node in any state): Sequence::empty/begin/end/position and the Iterator algebra (iteration from begin to end visits size() elements and agrees with positional access), Product/Sum/Expr_list/Scope/Parameter_list helpers, Udt::scope and members(), Block::body and try_block (true exactly when handlers are present), Template::parameters/result, Parameter::default_value, Type::linkage, and that ==/!= on Logogram, Linkage, Calling_convention, Basic_specifier/qualifier are identity of the underlying String/logogram (an equivalence); 87 named accessors are checked to be exactly their documented primitive. A changed body breaks the corresponding theorem; the driver then exhibits a node on which helper and definition differ.",
    note="Trusted: the AST-to-expression translator (fails closed: unknown shapes become CUnknown, which evaluates to an error value), Coq kernel. The denotation treats & and * as identity on objects and models only the two aggregates the interface defines (Iterator).",
    ref="DESIGN.md §6 C15"),
+ "C12": dict(
+   technique="Coq proof: well-foundedness by induction over construction histories (every new region is enclosed by an older one), per-constructor enclosure/ownership lemmas, reachability of a global root by strong induction; extracted-model/implementation correspondence on seeded nesting scripts under ASan with an independent oracle",
+   text="Region.v proves for every construction history: each region's parent was created earlier, walking outward reaches a parentless (global) region in at most index+1 steps, only unit roots are global, every constructor encloses its region in the one it was given with the documented owner (class, union, enum, namespace, closure, block, mapping, lambda, handler body), a handler body is enclosed by a region binding exactly the exception parameter which is enclosed by the region enclosing the guarded block; member positions equal indices (Scope.v). Scripts of up to 200 (2500) operations, random and deeply nested, are run on the library and on the extracted model.",
+   note="Trusted: Coq kernel, extraction, region_driver, ASan. Modelled: region identity as creation index; Requires/morphism/where regions have no owner in the library and in the model.",
+   ref="DESIGN.md §6 C12"),
 }
 
 NOT_YET = {}
